@@ -120,11 +120,13 @@ def _work_rand(args):
             try:
                 build = rng.integers(0, 256, (nm, 3)) * g
                 calc = Chi2Calculator(fixed * g, build, restr if restr else None)
+                mbuf = np.zeros((nm, 3))        # one buffer refilled in place: the value follows the contents, not the object
                 for _ in range(int(rng.integers(2, 5))):
                     mob = rng.integers(0, 256, (nm, 3))
                     if rng.random() < 0.3:          # force some ties / coincidences
                         mob[rng.integers(0, nm)] = fixed[rng.integers(0, nf)]
-                    v = float(calc(mob * g))
+                    mbuf[...] = mob * g
+                    v = float(calc(mbuf))
                     ev.append({'op': 'Eval', 'mobile': mob.tolist(), 'finite': bool(math.isfinite(v)),
                                'nonneg': bool(v >= 0), 'cand': decompose(v, nm, g * g), 'value': v})
                 # generic floats: invariances (tie-free with probability one)
